@@ -408,8 +408,9 @@ def failing_theorems(prop: str, build_out: str) -> list[str]:
         if m:
             starts.append((i, '.'.join(ns + [m.group(2)]) if m.group(1) == 'theorem' else f'example@{i}'))
     out = []
-    for m in re.finditer(r'Props/Src/' + prop + r'\.lean:(\d+):\d+: error', build_out):
-        line = int(m.group(1))
+    # `lean` prints `file:line:col: error: …`, `lake build` (Lake 5) prints `error: file:line:col: …`
+    for m in re.finditer(r'(?:error: \S*Props/Src/' + prop + r'\.lean:(\d+):\d+:|Props/Src/' + prop + r'\.lean:(\d+):\d+: error)', build_out):
+        line = int(m.group(1) or m.group(2))
         name = None
         for st, n in starts:
             if st <= line:
